@@ -120,12 +120,57 @@ class C11(Property):
                                    % (c.tags["argv0"], c.tags["name"], "; ".join(what))))
             elif ic[0] == "STDERR" and not gen.unhx(ic[1]).strip():
                 out.append(Finding("violation", c, "a failure with an empty message"))
+            elif ic[0] == "STDOUT" and not self.request_possible(c):
+                out.append(Finding("violation", c, "a help/version screen on stdout with status 0 although the line holds no help or version "
+                                                   "request and no level with fallback_to_usage was given an empty line: a parse failure must "
+                                                   "go to stderr with status 1 (line %r)" % (c.argv,)))
         stats = {"nontrivial_ids": nontrivial, "distribution": dist,
                  "rule": "random definitions x vectors (sentences, mutations, help/version requests, non-UTF-8 items) x argv[0] "
                          "variants (paths, dots, spaces, non-ASCII, non-UTF-8, empty, `.`, `x/..`); each case is run in-process "
                          "(run_inner with the documented program name) and as a real child process that calls OptionParser::run(); "
                          "(status, stdout, stderr, body-reached sentinel) must be exactly what the in-process outcome predicts"}
         return out, stats
+
+
+    @staticmethod
+    def request_possible(c):
+        """Could this line legitimately produce a help/version screen?  (liberal: any spelling of a declared help/version
+        name anywhere, an empty top-level line under fallback_to_usage, or the name of a command at or below which a level
+        has fallback_to_usage)"""
+        levels = []
+
+        def walk(o, path_cmds):
+            levels.append((o, path_cmds))
+            for x in gen.walk(o["p"]):
+                if x["k"] == "cmd":
+                    walk(x["options"], path_cmds + [x])
+        walk(c.opts, [])
+        shorts, longs = set(), set()
+        for o, _ in levels:
+            hn = o["help_names"] or {"short": ["h"], "long": ["help"]}
+            vn = o["version_names"] or {"short": ["V"], "long": ["version"]}
+            shorts.update(hn["short"])
+            longs.update(hn["long"])
+            if o["version"] is not None:
+                shorts.update(vn["short"])
+                longs.update(vn["long"])
+        for a in c.argv:
+            t = a.decode("utf-8", "replace")
+            if t.startswith("--"):
+                if t[2:].split("=")[0] in longs:
+                    return True
+            elif t.startswith("-") and any(ch in shorts for ch in t[1:]):
+                return True
+        rest = [a for a in c.argv if a != b"--"]
+        if c.opts["fallback_to_usage"] and not rest:
+            return True
+        for o, cmds in levels:
+            if o["fallback_to_usage"]:
+                for x in cmds:
+                    names = [x["name"]] + list(x["aliases"]) + list(x["shorts"])
+                    if any(a.decode("utf-8", "replace") in names for a in c.argv):
+                        return True
+        return False
 
 
 PROP = C11()
